@@ -374,9 +374,11 @@ fn run_scn(scn: &Scn, queries: &[Pfx]) -> Outcome {
         let sticky = SpecFlags { sticky_down: true, ..Default::default() };
         let overlap = SpecFlags { overlap_withdraws: true, ..Default::default() };
         let agree_code = |f: SpecFlags| checkpoints.iter().all(|(_, n, s)| *s == spec_observe(&evs_code[..*n], queries, f));
+        // (a shared router id is tried before the overlap reading: a withdrawal by another connection's epilogue in front of
+        // an UPDATE that names a prefix twice looks like the repaired overlap defect otherwise)
         if agree(sticky) { fails.push(format!("flap:global-withdrawn-marker-never-cleared {first}")); }
-        else if agree(overlap) { fails.push(format!("overlap:withdrawal-applied-after-announcement-of-same-update {first}")); }
         else if shared_seen && (agree_code(SpecFlags::default()) || agree_code(sticky)) { fails.push(format!("{SHARED_SIG} {first}")); }
+        else if agree(overlap) { fails.push(format!("overlap:withdrawal-applied-after-announcement-of-same-update {first}")); }
         else {
             // an End-of-RIB marker next to routes that was swallowed: dropping exactly those UPDATEs explains everything
             let without = |n: usize| -> Vec<Ev> { evs[..n].iter().enumerate().filter(|(k, _)| !swallowed.contains(k)).map(|(_, e)| e.clone()).collect() };
